@@ -35,7 +35,7 @@ pub struct Case {
 
 pub fn gen_case(seed: u64, idx: usize, kinds: &[SectionKind], mode: usize) -> Case {
     let mut rng = Rng::new(mix(seed, &[tag("C10"), tag("concat"), idx as u64]));
-    let gp = GenParams { flavor: gen::Flavor::Git, sections: vec![], max_hunks: rng.range(1, 3), pivot: *rng.pick(&[1usize, 2, 3]), max_run: 6, with_commit_preamble: false, multibyte: rng.chance(1, 4), no_newline_marker: rng.chance(1, 2), similar_pairs: rng.chance(1, 2), no_index_lines: rng.chance(1, 4) };
+    let gp = GenParams { flavor: gen::Flavor::Git, sections: vec![], max_hunks: rng.range(1, 3), pivot: *rng.pick(&[1usize, 2, 3]), max_run: 6, with_commit_preamble: false, multibyte: rng.chance(1, 4), no_newline_marker: rng.chance(1, 2), similar_pairs: rng.chance(1, 2), no_index_lines: rng.chance(1, 4), no_prefix: rng.chance(1, 6) };
     let mut sections = Vec::new();
     let mut tok = 0;
     // one time in three all sections are about the same path (`git log -p -- path`, a file added in
